@@ -1112,6 +1112,9 @@ static void run_legacy(const char *v2file, const char *reftable, long c)
 		    v2_matches_expected(v, nf, f, m, x));
 	    put_loaded_brief(v);
 	    LIBV(vnacal_free(v));
+	} else {
+	    /* (re-)load failed: nothing to compare */
+	    vt_put(",\"sameAsRef\":0,\"obs\":{\"end\":0,\"slots\":[]}");
 	}
 	vt_put("}");
 	vt_end_line();
@@ -1165,6 +1168,8 @@ static void run_legacy(const char *v2file, const char *reftable, long c)
 		vt_put(",\"sameAsRef\":%d,\"obs\":", same);
 		put_loaded_brief(v1);
 		LIBV(vnacal_free(v1));
+	    } else {
+		vt_put(",\"sameAsRef\":0,\"obs\":{\"end\":0,\"slots\":[]}");
 	    }
 	    vt_put("}");
 	    vt_end_line();
